@@ -627,7 +627,8 @@ def unloadedCount (s : St) : Nat := (if isNumRoot s rProg then 1 else 0) + (if i
 owner's array (size elements), held by slot d.
  * statement form (F_VOID_ASSIGN, copy_lvalue_range):
      n = len, fv->ref == 1 : every replaced element is released, the new one MOVED in (`*dptr++ = *fptr++`), free_empty_array(fv)
-     n = len, shared       : assign_svalue element by element, `fv->ref--`
+     n = len, shared       : assign_svalue element by element (a no-op where an element is assigned to itself: the array
+                             assigned to its own whole range), `fv->ref--`
      n ≠ len               : a new array: prefix copied (counted), fv's elements moved (ref == 1) or copied (counted),
                              suffix copied, free_array(old), owner->u.arr = new
  * value form (F_ASSIGN, assign_lvalue_range): always copies (counted); the right-hand side stays on the stack and is
@@ -636,6 +637,8 @@ def rangeProg (c size d i len fv n dv : Nat) (moveRhs valueForm : Bool) : List M
   if n == len then
     (List.range n).flatMap (fun k =>
       if moveRhs && !valueForm then [Mi.take (.item c (i + k)), .free, .take (.item fv k), .put (.item c (i + k))]
+      -- assign_svalue (dest, v) with dest == v (the array assigned to its own whole range) is a no-op
+      else if c == fv && i == 0 then []
       else [Mi.take (.item c (i + k)), .free, .dup (.item fv k), .put (.item c (i + k))]) ++ [.free]
   else
     -- values in transit: [fv]; the new array dv goes on top of it
